@@ -1076,6 +1076,14 @@ def replay_m(path):
                 bad.append((a, b, qq, rr))
         print(json.dumps(bad[:6]))
         return bool(bad)
+    if d.get('kind') == 'panics':
+        err = build_tool('render')
+        inp = '\n'.join(json.dumps(q) for q in d['requests']) + '\n'
+        p = subprocess.run([os.path.join(BUILD, 'native', 'debug', 'render')], input=inp, stdout=subprocess.PIPE, stderr=subprocess.PIPE, text=True, timeout=300)
+        outs = [json.loads(l) for l in p.stdout.split('\n') if l.strip()]
+        bad = [(q['src'], o.get('panic')) for q, o in zip(d['requests'], outs) if 'panic' in o]
+        print(json.dumps(bad))
+        return bool(bad) or len(outs) < len(d['requests'])
     if d.get('kind') == 'compare':
         err = build_tool('render')
         inp = '\n'.join(json.dumps(q) for q, _ in d['requests']) + '\n'
@@ -3438,6 +3446,135 @@ def run_slice_arms(prop, tier, seed):
         ev['problems'].append('engine M: slices differ from CPython natively (%s) although every arm cuts the window before it strides' % bad[0][:220])
     log('[%s] engine M (slice arms: window, then stride): %s (%d stride sites); native: %d x %d slices, %d groups wrong' % (prop, res['verdict'], res.get('stride_sites', 0), len(outs), len(bounds) ** 2, len(bad)))
     ev['coverage'] = dict(queries=1, results=[res], native_scenarios=len(outs) * len(bounds) ** 2, native_scenarios_failing=len(bad), check='slice_window_then_stride')
+    ev['wall_s'] = round(time.time() - t0, 1)
+    return ev
+
+
+# ---------------------------------------------------------------------------------------------
+# template-chosen capacities (C01): no Vec / String ::with_capacity in the filters, functions and operators takes a
+# number that a template can choose (an integer parameter of the function) unless it went through
+# utils::untrusted_size_hint or is bounded by something the template did not choose
+# ---------------------------------------------------------------------------------------------
+def check_capacity_arguments(mir):
+    results = []
+    for m in re.finditer(r'^fn ((?:filters|functions)::builtins::\w+|(?:value::)?ops::\w+)\(([^\n]*)\) -> ', mir, re.M):
+        name, sig = m.group(1), m.group(2)
+        text = mir[m.start():mir.index('\n}\n', m.start()) + 2]
+        if 'with_capacity(' not in text:
+            continue
+        params = [x.group(1) for x in re.finditer(r'(_\d+): (?:usize|isize|u64|i64|u32|i32|Option<usize>|std::option::Option<usize>)(?:,|$)', sig)]
+        fn = parse_function(text)
+        s_ = z3.Solver()
+        s_.set('timeout', 30000)
+        T = {}
+
+        def t(l):
+            if l not in T:
+                T[l] = z3.Bool('cap_%s_%s' % (name.replace(':', '_'), l))
+            return T[l]
+        for p_ in params:
+            s_.add(t(p_))
+        sinks = []
+        for bid, blk in fn['blocks'].items():
+            if blk['cleanup']:
+                continue
+            for st in blk['stmts']:
+                mm = re.match(r'(.+?) = (.*);$', st)
+                if not mm or st.startswith('Storage'):
+                    continue
+                lhs = re.search(r'_\d+', mm.group(1))
+                if not lhs:
+                    continue
+                rhs = mm.group(2)
+                dv = re.match(r'(?:Div|Rem)\((?:move|copy) (_\d+), ', rhs)
+                srcs = [dv.group(1)] if dv else set(re.findall(r'_\d+', rhs))
+                for l in srcs:
+                    s_.add(z3.Implies(t(l), t(lhs.group(0))))
+            dst, callee = call_of(blk['term'])
+            if not callee or not dst:
+                continue
+            args = re.findall(r'(?:move|copy) (_\d+)', callee[callee.find('('):])
+            dl = re.search(r'_\d+', dst).group(0)
+            if re.search(r'(?:Vec::<[^>]*>|String)::with_capacity\(', callee) and args:
+                sinks.append((bid, args[0]))
+                continue
+            if re.match(r'(?:utils::)?untrusted_size_hint\(', callee):
+                continue
+            if re.search(r'(?:Ord>::min|cmp::min::<)', callee) and len(args) == 2:
+                s_.add(z3.Implies(z3.And(t(args[0]), t(args[1])), t(dl)))
+                continue
+            for a in args:
+                s_.add(z3.Implies(t(a), t(dl)))
+        if not sinks:
+            continue
+        for _, a in sinks:
+            s_.add(z3.Not(t(a)))
+        t0 = time.time()
+        r = s_.check()
+        res = dict(function=name, integer_parameters=params, capacity_sites=len(sinks), z3_s=round(time.time() - t0, 3))
+        if r == z3.sat:
+            res.update(verdict='sat')
+        elif r == z3.unsat:
+            res.update(verdict='unsat', conflict='%s reserves a capacity that derives from an integer parameter (%s) without utils::untrusted_size_hint' % (name, ', '.join(params)))
+        else:
+            res.update(verdict=str(r))
+        results.append(res)
+    return results
+
+
+def run_capacities(prop, tier, seed):
+    t0 = time.time()
+    ev = dict(engine='M', violations=[], known_hits=[], problems=[], coverage={})
+    try:
+        mir = dump_mir(REPO, os.path.join(BUILD, 'mir'))
+    except MirError as e:
+        ev['problems'].append('engine M: %s' % e)
+        return ev
+    results = check_capacity_arguments(mir)
+    if not results:
+        ev['problems'].append('engine M: no with_capacity call found in filters / functions / operators')
+        return ev
+    err = build_tool('render')
+    if err:
+        ev['problems'].append('engine M: render tool did not build')
+        return ev
+    big = 9223372036854775807
+    probes = {
+        'batch': ['{{ l|batch(%d)|list|length }}' % big, "{{ (l|chain('ab'))|batch(%d)|list|length }}" % big, '{{ []|batch(%d)|list|length }}' % big],
+        # (the slice filter builds `count` lists in a loop: a huge count cannot be probed natively)
+    }
+    reqs, keys = [], []
+    for f, srcs in probes.items():
+        for src in srcs:
+            reqs.append(dict(src=src, ctx=dict(l=[1, 2, 3]), fuel=200000))
+            keys.append(f)
+    inp = '\n'.join(json.dumps(q) for q in reqs) + '\n'
+    p = subprocess.run([os.path.join(BUILD, 'native', 'debug', 'render')], input=inp, stdout=subprocess.PIPE, stderr=subprocess.PIPE, text=True, timeout=300)
+    outs = [json.loads(l) for l in p.stdout.split('\n') if l.strip()]
+    bad = {}
+    for f, q, o in zip(keys, reqs, outs):
+        if 'panic' in o:
+            bad.setdefault(f, []).append('%s panics: %s' % (q['src'], o['panic'][:80]))
+    if len(outs) < len(reqs):
+        bad.setdefault(keys[len(outs)], []).append('%s aborts the process' % reqs[len(outs)]['src'])
+    for r in results:
+        f = r['function'].split('::')[-1]
+        if r['verdict'] == 'sat':
+            continue
+        if r['verdict'] != 'unsat':
+            ev['problems'].append('engine M: %s: %s' % (r['function'], r['verdict']))
+            continue
+        if f in bad:
+            rp = os.path.join(nativelib.replay_dir(), '%s-M-capacity-%s.json' % (prop, f))
+            json.dump(dict(engine='M', kind='panics', property=prop, mir_finding=r, requests=[q for k, q in zip(keys, reqs) if k == f], how='bin/check %s --replay %s' % (prop, rp)), open(rp, 'w'), indent=1)
+            ev['violations'].append(dict(replay=rp, failed=[dict(desc='%s; natively: %s' % (r['conflict'], bad[f][0][:200]), loc='minijinja/src/filters.rs %s (MIR)' % f)]))
+        else:
+            ev['problems'].append('engine M: %s, but no native probe of that function panics' % r['conflict'])
+    for f, msgs in bad.items():
+        if all(r['verdict'] == 'sat' for r in results if r['function'].split('::')[-1] == f):
+            ev['problems'].append('engine M: %s although no template-chosen number reaches a with_capacity call of %s' % (msgs[0][:200], f))
+    log('[%s] engine M (template-chosen capacities): %s; native: %d probes, %d panicking' % (prop, ' '.join('%s=%s' % (r['function'].split('::')[-1], r['verdict']) for r in results), len(outs), sum(len(v) for v in bad.values())))
+    ev['coverage'] = dict(queries=len(results), results=results, native_scenarios=len(outs), native_scenarios_failing=sum(len(v) for v in bad.values()), check='capacity_arguments')
     ev['wall_s'] = round(time.time() - t0, 1)
     return ev
 
